@@ -20,6 +20,7 @@ from ..core import where_of, trace_of
 from ..interp import fmt, contains, subterms
 from ..model import AnalysisError, ClassInfo
 from .. import q
+from .. import roles
 from .c04 import roots as all_roots
 from .c02 import _no_cb_inline
 
@@ -37,7 +38,7 @@ def may_raise(ev, interp, path):
         if isinstance(r, tuple) and r[0] == "super":
             inst = r[2]
             # guarded: done() was found false and the future's lock has been held since
-            guarded = path.assume.get(("call", ("attr", inst, "done"), (), (), None)) is False and any(l[1] == ("attr", inst, "_me_lock") for l in path.locks)
+            guarded = path.assume.get(("call", ("attr", inst, "done"), (), (), None)) is False and any(l[1] == ("attr", inst, LOCKF[0]) for l in path.locks)
             if not guarded:
                 return ["InvalidStateError"]
         else:
@@ -49,8 +50,12 @@ def may_raise(ev, interp, path):
     return []
 
 
+LOCKF = [None]
+
+
 def check(ctx, rep):
     prog = ctx.prog
+    LOCKF[0] = roles.proto(ctx).lock
     rep.rule("R-MUSTCATCH", "no path of a worker loop, a library done-callback or cancel() ends with an exception that originated in a call of user-supplied code")
     rep.rule("R-TOLERANT", "no path of a worker loop, a library done-callback or cancel() ends with an InvalidStateError from a state transition of a future that may already be cancelled")
     rep.rule("R-HANDLER", "every handler that is the innermost one around a call of user code catches Exception")
